@@ -12,7 +12,9 @@
 //   step  n nev max init corr rule maxit tol  m B(n*m) W(n*m) th(m) Y(m*m)  A(n*n)  m2 B2(n*m2)  ok2 k2 th2(k2) Y2(k2*k2)
 //         one trip round the REAL loop (state at the break of iteration maxit-2  ->  state at the break of iteration maxit-1),
 //         the third-party kernels (HouseholderQR inside extend_basis, SelfAdjointEigenSolver) replayed from the recording
-//                                                        -> restart m' info niter ret nfl flags.. leftsame lenok inspan eigok | norms(m') | W'(n*m')
+//                                                        -> restart m' info niter ret nfl flags.. leftsame lenok inspan blockok eigok | norms(m') | W'(n*m')
+//         blockok = the columns the recorded HouseholderQR kernel appended are orthonormal AMONG THEMSELVES (unit norm, |q_i . q_j| <= 1e-8):
+//         the Q factor of a Householder QR has this property for EVERY input block, rank deficient or not (a zero or non-unit column is not a Q factor)
 // Eigen assertions are turned into exceptions so that an assertion failure is a recorded outcome, not a dead harness.
 #include <stdexcept>
 #include <string>
@@ -49,12 +51,14 @@ struct SpectraVerifAccess {
 typedef SpectraVerifAccess AX;
 
 static const char* RN[9] = {"LargestMagn", "LargestReal", "LargestImag", "LargestAlge", "SmallestMagn", "SmallestReal", "SmallestImag", "SmallestAlge", "BothEnds"};
-static const char* CLS[8] = {"diagdom", "dense", "blockdiag", "decoupled", "diagonal", "clustered", "exactritz", "graded"};
+static const char* CLS[12] = {"diagdom", "dense", "blockdiag", "decoupled", "diagonal", "clustered", "exactritz", "graded", "arrowhead", "bordered", "twin", "arrowblock"};
+static const long STRUCT_BASE = 1000000;   // case indices >= STRUCT_BASE: the structured share (gen_struct_case)
 static const char* GK[4] = {"default", "orthonormal", "nonorthonormal", "dependent"};
 
 struct Case {
     long idx = 0; int cls = 0; int n = 0; int nev = 1; bool two_arg = true; long nvec_init = 0, nvec_max = 0; int rule = 0; int maxit = 100; double tol = 1e-8;
     bool sparse = false; int gkind = 0; Mat A; Mat G; long mx = -1, in = -1, co = -1;   // sizes after the constructor
+    bool structured = false; std::vector<int> hubs; int defn = 0;   // structured share: hub coordinates, definiteness (0 positive, 1 negative, 2 indefinite)
 };
 
 static std::string bits(const Mat& M) { std::string s; for (Index j = 0; j < M.cols(); j++) for (Index i = 0; i < M.rows(); i++) { s += ' '; s += str(dbits(M(i, j))); } return s; }
@@ -125,6 +129,78 @@ static Mat make_guess(Rng& r, int kind, int n, int g) {
     return G;
 }
 
+
+static LD rule_key(int rule, double x);
+
+// ------------------------------------------------------------------ structured share: linearly dependent DPR correction blocks
+// The default initial space of DavidsonSymEigsSolver is a set S of unit coordinate vectors.  When the coordinates of S are coupled to the
+// rest of the matrix through a few "hub" coordinates only (arrowhead / bordered-diagonal matrix, or such a block of a block-diagonal
+// matrix), the Ritz pairs of the first iteration are (a_ii, e_i) exactly, every residue lies in span{e_h : h a hub} and so does every DPR
+// correction: with one hub the corrections are exactly PARALLEL, with b hubs and more than b corrections they are linearly dependent, and
+// when two coordinates of S have the same diagonal entry and the same couplings ("twin") their corrections are exactly EQUAL.  Entries are
+// small integers / dyadic fractions, so these relations hold bit for bit.  HouseholderQR inside extend_basis returns an orthonormal block
+// for such rank-deficient input and the run must end with genuine pairs (or not Successful); the share cycles through
+// {arrowhead, bordered, twin, arrowhead block + dense block} x {LargestMagn, LargestAlge, SmallestMagn, SmallestAlge} x {positive definite,
+// negative definite, indefinite} (period 48) with nev >= 2, dense and sparse wrappers, default and user-supplied (coordinate) spaces.
+static Case gen_struct_case(uint64_t seed, long i, bool thorough) {
+    Rng r(seed, 1508, (uint64_t) i); Case c; c.idx = STRUCT_BASE + i; c.structured = true;
+    static const int rules[4] = {0, 3, 4, 7};
+    const int sk = (int) (i % 4); c.cls = 8 + sk;
+    c.rule = rules[(i / 4) % 4];
+    c.defn = (int) ((i / 16) % 3);
+    const int n1 = r.coin(0.6) ? r.range(9, 16) : r.range(9, thorough ? 36 : 20);          // size of the arrowhead / bordered part
+    const int n2 = (sk == 3) ? r.range(2, thorough ? 8 : 5) : 0;                            // dense block next to it
+    const int n = n1 + n2; c.n = n;
+    c.nev = r.range(2, std::max(2, std::min(4, n1 / 4)));
+    c.sparse = r.coin(0.4);
+    std::vector<int> p(n1); for (int k = 0; k < n1; k++) p[k] = k + 1; for (int k = n1 - 1; k > 0; k--) std::swap(p[k], p[r.below(k + 1)]);
+    std::vector<int> val(n1); for (int k = 0; k < n1; k++) val[k] = (sk == 2) ? (p[k] + 1) / 2 : p[k];    // twin: every diagonal value occurs twice
+    auto dg = [&](double v) { return c.defn == 0 ? v : c.defn == 1 ? -v : v - (double) (n1 / 2) - 0.25; };
+    Mat A = Mat::Zero(n, n);
+    for (int k = 0; k < n1; k++) A(k, k) = dg((double) val[k]);
+    // hubs: with probability 0.8 outside the 3*nev coordinates the rule ranks first (the default initial space holds the first 2*nev)
+    const int nb = (sk == 0 || sk == 3) ? 1 : r.range(1, 2) + ((thorough && r.coin(0.2)) ? 1 : 0);
+    std::vector<int> ord(n1); for (int k = 0; k < n1; k++) ord[k] = k;
+    std::stable_sort(ord.begin(), ord.end(), [&](int a, int b) { return rule_key(c.rule, A(a, a)) < rule_key(c.rule, A(b, b)); });
+    const int prot = r.coin(0.8) ? std::min(n1 - nb, 3 * c.nev) : 0;
+    std::vector<int> cand(ord.begin() + prot, ord.end());
+    for (int k = (int) cand.size() - 1; k > 0; k--) std::swap(cand[k], cand[r.below(k + 1)]);
+    c.hubs.assign(cand.begin(), cand.begin() + nb);
+    auto is_hub = [&](int k) { return std::find(c.hubs.begin(), c.hubs.end(), k) != c.hubs.end(); };
+    // couplings k/8, k = +-1..+-4, a function of (hub, diagonal VALUE): twins share their couplings
+    for (int h : c.hubs) { std::vector<double> cpl(n1 + 2); for (auto& x : cpl) x = (r.coin() ? 1.0 : -1.0) * (double) r.range(1, 4) / 8.0;
+        for (int k = 0; k < n1; k++) if (k != h && !(is_hub(k) && k < h)) { A(k, h) = cpl[val[k]]; A(h, k) = cpl[val[k]]; } }
+    if (n2 > 0) {   // dense block with a mid-range diagonal (never the wanted end of the spectrum), decoupled from the arrowhead block
+        double mid = (c.defn == 2) ? ((c.rule == 0 || c.rule == 4) ? (double) (n1 / 4) + 0.375 : 0.375) : (double) (n1 / 2) + 0.375; if (c.defn == 1) mid = -mid;
+        for (int a = 0; a < n2; a++) for (int b = 0; b <= a; b++) { double v = (a == b) ? mid + a / 64.0 : 0.05 * r.sym(); A(n1 + a, n1 + b) = v; A(n1 + b, n1 + a) = v; } }
+    c.A = A;
+    c.two_arg = r.coin(0.65);
+    if (c.two_arg) { c.nvec_init = 2 * c.nev; c.nvec_max = 10 * c.nev; }
+    else { c.nvec_init = r.range(c.nev, 2 * c.nev + 1); c.nvec_max = r.range((int) c.nvec_init + c.nev, std::max((int) c.nvec_init + c.nev, n)); }
+    static const double tols[5] = {1e-5, 1e-6, 1e-7, 1e-8, 1e-10};
+    c.tol = tols[r.below(5)];
+    c.maxit = r.coin(0.1) ? r.range(2, 4) : 100;
+    { double u = r.unit(); c.gkind = u < 0.5 ? 0 : u < 0.75 ? 1 : u < 0.87 ? 2 : 3; }
+    c.G = Mat(n, 0);
+    return c;
+}
+
+// user space for the structured share: g signed unit coordinate vectors (orthonormal, exact), avoiding the hubs where possible - either
+// the g coordinates the rule ranks first among the non-hubs or g random ones; kind 2 scales some columns by 2 or 1/2 (non-orthonormal),
+// kind 3 repeats a column (dependent)
+static Mat make_struct_guess(Rng& r, const Case& c, int g) {
+    const int n = c.n; std::vector<int> idx;
+    for (int k = 0; k < n; k++) if (std::find(c.hubs.begin(), c.hubs.end(), k) == c.hubs.end()) idx.push_back(k);
+    if ((int) idx.size() < g) { idx.clear(); for (int k = 0; k < n; k++) idx.push_back(k); }
+    if (r.coin()) std::stable_sort(idx.begin(), idx.end(), [&](int a, int b) { return rule_key(c.rule, c.A(a, a)) < rule_key(c.rule, c.A(b, b)); });
+    else for (int k = (int) idx.size() - 1; k > 0; k--) std::swap(idx[k], idx[r.below(k + 1)]);
+    Mat G = Mat::Zero(n, g);
+    for (int j = 0; j < g; j++) G(idx[j], j) = r.coin() ? 1.0 : -1.0;
+    if (c.gkind == 2) { int j0 = (int) r.below(g); for (int j = 0; j < g; j++) if (j == j0 || r.coin(0.3)) G.col(j) *= (r.coin() ? 2.0 : 0.5); }
+    if (c.gkind == 3 && g >= 2) { int a = (int) r.below(g), b = (a + 1 + (int) r.below(g - 1)) % g; G.col(b) = r.coin() ? Vec(G.col(a)) : Vec(-2.0 * G.col(a)); }
+    return G;
+}
+
 struct Snap {   // state of a solver after compute*/compute_with_guess
     bool threw = false; std::string what; bool assert_fail = false;
     int info = 1; long ret = -1, niter = -1; Mat B, W, Y, X, R; Vec th; std::vector<int> flags; Vec evals; Mat evecs; bool acc_threw = false; std::string acc_what; Mat C; bool haveC = false; std::vector<long> init_rows;
@@ -158,11 +234,11 @@ static bool all_finite(const Mat& M) { for (Index j = 0; j < M.cols(); j++) for 
 static LD rule_key(int rule, double x) { switch (rule) { case 0: return -std::fabs((LD) x); case 3: return -(LD) x; case 4: return std::fabs((LD) x); default: return (LD) x; } }
 
 // ------------------------------------------------------------------ the property's oracle on one finished run
-static void oracle(const Case& c, const Snap& s, Out& out, uint64_t seed, const std::string& tier, bool zero_denom, bool in_span) {
+static void oracle(const Case& c, const Snap& s, Out& out, uint64_t seed, const std::string& tier, bool zero_denom, bool in_span, bool block_ok) {
     const int n = c.n; const int nev = c.nev;
     // mechanism tags used by known-finding matching (computed, not assumed)
     LD gdev = 0; if (c.gkind != 0) { for (Index i = 0; i < c.G.cols(); i++) for (Index j = 0; j < c.G.cols(); j++) { LD d = 0; for (int k = 0; k < n; k++) d += (LD) c.G(k, i) * (LD) c.G(k, j); gdev = std::max(gdev, std::fabs(d - (i == j ? 1.0L : 0.0L))); } }
-    std::ostringstream ex; ex << ",\"guess_orthonormal\":" << (gdev <= 1e-8L ? 1 : 0) << ",\"zero_denominator_seen\":" << (zero_denom ? 1 : 0) << ",\"degenerate_correction_seen\":" << (in_span ? 1 : 0) << ",\"final_space_lt_nev\":" << ((long) s.th.size() < nev ? 1 : 0) << ",\"flags_lt_nev\":" << ((long) s.flags.size() < nev ? 1 : 0)
+    std::ostringstream ex; ex << ",\"guess_orthonormal\":" << (gdev <= 1e-8L ? 1 : 0) << ",\"zero_denominator_seen\":" << (zero_denom ? 1 : 0) << ",\"degenerate_correction_seen\":" << (in_span ? 1 : 0) << ",\"extension_block_orthonormal\":" << (block_ok ? 1 : 0) << ",\"final_space_lt_nev\":" << ((long) s.th.size() < nev ? 1 : 0) << ",\"flags_lt_nev\":" << ((long) s.flags.size() < nev ? 1 : 0)
                               << ",\"initial_space_gt_max\":" << ((c.gkind == 0 ? c.in : (long) c.G.cols()) > c.mx ? 1 : 0) << ",\"info\":" << s.info << ",\"ret\":" << s.ret << ",\"raised\":\"" << jesc(s.threw ? s.what : std::string("")) << "\"";
     std::string rj = replay_json(c, seed, tier, ex.str());
     std::string tag = std::string(CLS[c.cls]) + "/" + GK[c.gkind] + "/" + RN[c.rule] + " n=" + str(n) + " nev=" + str(nev);
@@ -207,7 +283,7 @@ static void one_case(Op& op, Case& c, Out& out, uint64_t seed, const std::string
     if (ctor_threw) { out.count("ctor_throw"); return; }
     if (in + co > n || mx > n || in < 1 || co < 1) { std::ostringstream ex; ex << ",\"max\":" << mx << ",\"init\":" << in << ",\"corr\":" << co; if (in < 1 || co < 1 || in + co > n) out.fail("sizes-guard", "constructor leaves sizes init=" + str(in) + " corr=" + str(co) + " max=" + str(mx) + " for n=" + str(n), replay_json(c, seed, tier, ex.str())); }
     // ---- initial space supplied by the caller
-    if (c.gkind != 0) { Rng rg(seed, 1515, (uint64_t) c.idx); int g = (int) std::min<long>(n - 1, std::max<long>(co, in)); if (c.gkind == 3 && g < 2) c.gkind = 2; c.G = make_guess(rg, c.gkind, n, g); }
+    if (c.gkind != 0) { Rng rg(seed, 1515, (uint64_t) c.idx); int g = (int) std::min<long>(n - 1, std::max<long>(co, in)); if (c.gkind == 3 && g < 2) c.gkind = 2; c.G = c.structured ? make_struct_guess(rg, c, g) : make_guess(rg, c.gkind, n, g); }
     out.count(std::string("cls_") + CLS[c.cls]); out.count(std::string("guess_") + GK[c.gkind]); out.count(std::string("rule_") + RN[c.rule]); out.count(c.sparse ? "op_sparse" : "op_dense");
     // ---- the full run
     Snap fin = run_real(op, c, c.maxit);
@@ -216,7 +292,7 @@ static void one_case(Op& op, Case& c, Out& out, uint64_t seed, const std::string
     std::vector<Snap> pre; bool zero_denom = false; bool in_span = false; bool any_restart = false; bool space_full = false;
     int kmax = (int) std::min<long>(c.maxit, fin.niter >= 0 ? fin.niter + 1 : 1);
     Vec diag = c.A.diagonal();
-    bool push = true; long prev_size = -1;
+    bool push = true; long prev_size = -1; int prev_k = -1; bool block_ok = true; std::string block_what; long block_iter = -1;
     for (int k = 1; k <= kmax; k++) {
         if (k > 30 && k % 5 != 0 && k != kmax) { push = false; continue; }    // later iterations are sampled (cost is quadratic in the iteration count)
         Snap p = run_real(op, c, k);
@@ -226,7 +302,13 @@ static void one_case(Op& op, Case& c, Out& out, uint64_t seed, const std::string
         if (push) pre.push_back(p);
         if (p.B.cols() >= n) space_full = true;
         if (prev_size >= 0 && (long) p.B.cols() < prev_size) any_restart = true;
-        prev_size = (long) p.B.cols();
+        // specification of the HouseholderQR kernel on the real code: the co columns appended by extend_basis (no restart in between) are the
+        // leading columns of a Q factor, orthonormal among themselves for EVERY input block (rank deficient or not, whatever the old columns are)
+        if (block_ok && !p.threw && prev_k == k - 1 && prev_size >= 0 && (long) p.B.cols() == prev_size + co && prev_size + co <= mx && all_finite(p.B)) {
+            Mat Q = p.B.rightCols(co); Mat Gq = Q.transpose() * Q - Mat::Identity(co, co); double dev = Gq.cwiseAbs().maxCoeff();
+            if (!(dev <= 1e-8)) { block_ok = false; block_iter = k - 1; std::ostringstream w; w << "max|Q^T Q - I| = " << dev << ", column norms";
+                for (Index j = 0; j < Q.cols(); j++) w << " " << Q.col(j).norm(); block_what = w.str(); } }
+        prev_size = (long) p.B.cols(); prev_k = k;
         if (p.info == 2 || k < kmax) for (Index kk = 0; kk < std::min<Index>(co, p.th.size()); kk++) for (int i = 0; i < n; i++) if (p.th[kk] - diag[i] == 0.0) zero_denom = true;
         if ((p.info == 2 || k < kmax) && p.B.cols() <= n && p.B.cols() > 0 && all_finite(p.B) && all_finite(p.R)) {   // DPR correction numerically inside the current search space (stagnation)?
             Eigen::HouseholderQR<Mat> qr(p.B); Mat Q = qr.householderQ() * Mat::Identity(n, p.B.cols());
@@ -241,14 +323,18 @@ static void one_case(Op& op, Case& c, Out& out, uint64_t seed, const std::string
     }
     if (any_restart) out.count("runs_with_restart"); if (space_full) out.count("runs_space_reaches_n"); if (zero_denom) out.count("runs_zero_denominator");
     if (in_span) out.count("runs_correction_in_span");
+    if (c.structured) { out.count("struct_cases"); if (in_span) out.count("struct_dependent_block_seen"); if (fin.info == 0) out.count("struct_successful"); }
+    if (!block_ok) { std::ostringstream w, ex; w << "extend_basis appended a block that is not a Householder Q factor (" << block_what << ") in iteration " << block_iter << " on " << CLS[c.cls] << "/" << GK[c.gkind] << "/" << RN[c.rule] << " n=" << n << " nev=" << c.nev << " (final info=" << fin.info << ")";
+        ex << ",\"zero_denominator_seen\":" << (zero_denom ? 1 : 0) << ",\"degenerate_correction_seen\":" << (in_span ? 1 : 0) << ",\"extension_block_orthonormal\":0,\"iteration\":" << block_iter;
+        out.fail("extension-block-not-orthonormal", w.str(), replay_json(c, seed, tier, ex.str())); out.count("oracle_block_dev"); }
     // specification of extend_basis / restart on the real code: an orthonormal initial space stays orthonormal
     { LD g0 = 0; if (c.gkind != 0) g0 = (LD) (c.G.transpose() * c.G - Mat::Identity(c.G.cols(), c.G.cols())).cwiseAbs().maxCoeff();
       if (g0 <= 1e-8L) for (size_t k = 0; k < pre.size(); k++) { const Mat& B = pre[k].B; if (!all_finite(B) || B.cols() > n) continue;
           double dev = (B.transpose() * B - Mat::Identity(B.cols(), B.cols())).cwiseAbs().maxCoeff();
           if (!(dev <= 1e-8)) { std::ostringstream w, ex; w << "search-space basis lost orthonormality: max|V^T V - I| = " << dev << " at iteration " << k << " (size " << B.cols() << ") although the initial space was orthonormal, on " << CLS[c.cls] << "/" << GK[c.gkind] << " n=" << n << " nev=" << c.nev;
-              ex << ",\"guess_orthonormal\":1,\"zero_denominator_seen\":" << (zero_denom ? 1 : 0) << ",\"degenerate_correction_seen\":" << (in_span ? 1 : 0) << ",\"iteration\":" << k;
+              ex << ",\"guess_orthonormal\":1,\"zero_denominator_seen\":" << (zero_denom ? 1 : 0) << ",\"degenerate_correction_seen\":" << (in_span ? 1 : 0) << ",\"extension_block_orthonormal\":" << (block_ok ? 1 : 0) << ",\"iteration\":" << k;
               out.fail("basis-not-orthonormal", w.str(), replay_json(c, seed, tier, ex.str())); out.count("oracle_basis_dev"); break; } } }
-    oracle(c, fin, out, seed, tier, zero_denom, in_span);
+    oracle(c, fin, out, seed, tier, zero_denom, in_span, block_ok);
     if (!corr) return;
     // ---- correspondence: kernels that are explicit scalar code (bit-exact): DPR correction, initial space from the sorted diagonal
     auto nb = [](double x) { return std::isnan(x) ? std::string("nan") : str(dbits(x)); };
@@ -276,7 +362,7 @@ static void one_case(Op& op, Case& c, Out& out, uint64_t seed, const std::string
         rq << " 1 " << q.th.size() << bitsv(q.th) << bits(q.Y);
         std::ostringstream rs;
         rs << (restart ? 1 : 0) << " " << q.B.cols() << " " << q.info << " " << q.niter << " " << q.ret << " " << q.flags.size(); for (int f : q.flags) rs << " " << f;
-        rs << " 1 1 1 1 |"; for (Index j = 0; j < q.R.cols(); j++) rs << " " << dbits(q.R.col(j).norm()); rs << " |" << bits(q.W);
+        rs << " 1 1 1 1 1 |"; for (Index j = 0; j < q.R.cols(); j++) rs << " " << dbits(q.R.col(j).norm()); rs << " |" << bits(q.W);
         out.corr(rq.str(), rs.str()); nsteps++; out.count(restart ? "step_restart" : "step_plain");
     }
     // ---- correspondence: full run with the model's own kernels (generic classes only: distinct, separated spectrum)
@@ -316,12 +402,14 @@ int main(int argc, char** argv) {
         std::ifstream f(a.replay); std::string t((std::istreambuf_iterator<char>(f)), {});
         auto num = [&](const char* key, long dflt) { auto p = t.find(std::string("\"") + key + "\":"); return p == std::string::npos ? dflt : std::atol(t.c_str() + p + std::strlen(key) + 3); };
         long idx = num("idx", 0); uint64_t sd = (uint64_t) num("seed", (long) a.seed); bool th = t.find("\"tier\":\"thorough\"") != std::string::npos;
-        Case c; if (idx < 0) { auto v = corpus(); c = v[(size_t) (-idx - 1)]; } else c = gen_case(sd, idx, th);
+        Case c; if (idx < 0) { auto v = corpus(); c = v[(size_t) (-idx - 1)]; } else if (idx >= STRUCT_BASE) c = gen_struct_case(sd, idx - STRUCT_BASE, th); else c = gen_case(sd, idx, th);
         do_case(c, out, sd, th ? "thorough" : "quick", false); out.finish(); return out.nfail ? 1 : 0;
     }
     for (auto& c0 : corpus()) { Case c = c0; do_case(c, out, a.seed, a.tier, true); }
     long ncases = a.thorough() ? 1500 : 160;
     for (long i = 0; i < ncases; i++) { Case c = gen_case(a.seed, i, a.thorough()); do_case(c, out, a.seed, a.tier, true); out.count("cases"); }
+    long nstruct = a.thorough() ? 480 : 48;     // structured share: dependent DPR correction blocks (one full period of kind x rule x definiteness per 48)
+    for (long i = 0; i < nstruct; i++) { Case c = gen_struct_case(a.seed, i, a.thorough()); do_case(c, out, a.seed, a.tier, true); out.count("cases"); }
     out.finish();
     return 0;
 }
